@@ -204,8 +204,18 @@ pub fn finish(meta: &Meta, tier: &str, seed: i64, wall_s: f64, out: &Out, bounds
     let mut printed_known: BTreeSet<String> = BTreeSet::new();
     let mut unlisted: Vec<&Violation> = Vec::new();
     let mut known_hits: BTreeMap<String, u64> = BTreeMap::new();
+    let mut machinery = 0;
     for v in &out.violations {
         let key = v.key();
+        // failures of the machinery itself (a stalled or diverging controlled execution, a case
+        // that does not reproduce) are never verdicts
+        if v.clause == "machinery" || v.clause == "nondeterministic" {
+            machinery += 1;
+            if machinery <= 5 {
+                eprintln!("MACHINERY: property={} {}: {}", meta.id, key, v.detail.chars().take(400).collect::<String>());
+            }
+            continue;
+        }
         let hit = known
             .iter()
             .find(|k| k.property == meta.id && k.status == "known" && k.pattern.is_match(&key));
@@ -253,6 +263,7 @@ pub fn finish(meta: &Meta, tier: &str, seed: i64, wall_s: f64, out: &Out, bounds
         "outcomes": out.outcomes.iter().take(40).collect::<BTreeMap<_, _>>(),
         "counters": out.counters,
         "known_findings_hit": known_hits,
+        "machinery_failures": machinery,
         "violation_keys": out.violation_counts,
     });
     for (k, v) in &out.notes {
@@ -290,6 +301,8 @@ pub fn finish(meta: &Meta, tier: &str, seed: i64, wall_s: f64, out: &Out, bounds
     );
     if n_viol > 0 {
         1
+    } else if machinery > 0 {
+        2
     } else {
         0
     }
